@@ -27,7 +27,7 @@ AbsentMark == "<absent>"
 NoCallRec == [op |-> "", k |-> "", v |-> "", fn |-> "", lo |-> 0, hi |-> 0]
 NoRes == [rv |-> NilV, ok |-> FALSE, n |-> 0]
 IdleNest == [st |-> "idle", call |-> NoCallRec, res |-> NoRes]
-IdleThread == [st |-> "idle", call |-> NoCallRec, res |-> NoRes, cand |-> <<>>, visited |-> {}, nvis |-> 0, nest |-> IdleNest]
+IdleThread == [st |-> "idle", call |-> NoCallRec, res |-> NoRes, cand |-> <<>>, visited |-> {}, nvis |-> 0, bal0 |-> {}, nest |-> IdleNest]
 
 LinInit == M = MInit /\ th = [t \in Threads |-> IdleThread]
 
@@ -57,7 +57,8 @@ Call(t, ev) ==
   LET c == CallOf(ev) IN
   \/ /\ th[t].st = "idle"
      /\ th' = [th EXCEPT ![t] = [IdleThread EXCEPT !.st = IF c.op = "Range" THEN "range" ELSE "called", !.call = c,
-                                                  !.cand = IF c.op = "Range" THEN Snapshot(M) ELSE <<>>]]
+                                                  !.cand = IF c.op = "Range" THEN Snapshot(M) ELSE <<>>,
+                                                  !.bal0 = M.bal]]
      /\ UNCHANGED M
   \/ /\ th[t].st = "range" /\ th[t].nest.st = "idle" /\ c.op # "Range"
      /\ th' = [th EXCEPT ![t].nest = [st |-> "called", call |-> c, res |-> NoRes]]
@@ -96,8 +97,10 @@ Ret(A, t, ev) ==
             stopped == n > 0 /\ ev.x >= n
         IN On(A, "vis",
               /\ (n > 0 => ev.x <= n)
+              /\ ev.n <= Cardinality(th[t].bal0)
               /\ (~stopped => /\ \A k \in DOMAIN th[t].cand : AbsentMark \notin th[t].cand[k] => k \in th[t].visited
-                              /\ ev.n = Cardinality(M.bal)))
+                              \* ballast entries untouched during the traversal are all visited (a concurrent Clear may hide them)
+                              /\ (M.bal = th[t].bal0 => ev.n = Cardinality(M.bal))))
      /\ th' = [th EXCEPT ![t] = IdleThread]
      /\ UNCHANGED M
 
